@@ -48,6 +48,8 @@ def fam_exactly_once(w: World) -> None:
         _one_delivery(w, sut, cfg, info, d)
         if w.violations:
             return
+        if cfg['async'] and ch.flag(1, 3, 'new_event_loop'):
+            sut.new_event_loop()
 
 
 def _one_delivery(w: World, sut: S.ServerUnderTest, cfg: Dict[str, Any], info: Dict[str, Any], d: int) -> None:
